@@ -31,7 +31,6 @@ import (
 	stdlog "log"
 	"os"
 	"path/filepath"
-	"reflect"
 	"sort"
 	"strconv"
 	"strings"
@@ -874,24 +873,53 @@ func c20CrashDepth(tier string) int {
 
 const c20SplitDepth = 2 // shards share the search up to here, then split the frontier
 
-func c20Run(c *vfeng.Ctx) {
-	retention := durationMonth
-	ops := c20Alphabet()
-	w := c20NewWorld(fmt.Sprintf("s%d", c.Shard))
-	defer w.Close()
-	maxDepth, crashDepth := c20Depth(c.Tier), c20CrashDepth(c.Tier)
+// A pass is one breadth-first search.  Pass "full" uses the whole alphabet;
+// pass "narrow" uses one user and two event kinds (every tick, expire,
+// save+restart) and goes two levels deeper, because the shortest history on
+// which an expiry can go wrong after a restart has six operations.
+type c20Pass struct {
+	Name       string
+	Ops        []c20Op
+	Depth      int
+	CrashDepth int
+}
+
+func c20NarrowAlphabet() []c20Op {
+	return []c20Op{{Op: "rec", Kind: "auth", User: "u1"}, {Op: "rec", Kind: "ssh", User: "u1"},
+		{Op: "tick", D: "1h"}, {Op: "tick", D: "16d"}, {Op: "tick", D: "32d"}, {Op: "expire"}, {Op: "reload"}}
+}
+
+func c20Passes(tier string) []c20Pass {
+	return []c20Pass{
+		{"full", c20Alphabet(), c20Depth(tier), c20CrashDepth(tier)},
+		{"narrow", c20NarrowAlphabet(), c20Depth(tier) + 2, -1},
+	}
+}
+
+type c20Totals struct {
+	counted     map[[16]byte]struct{} // distinct states over all passes of this shard
+	states      int64
+	transitions int64
+	crash       *c20CrashStats
+}
+
+func c20Search(c *vfeng.Ctx, w *c20World, p c20Pass, tot *c20Totals, retention time.Duration) {
+	ops := p.Ops
 	visited := map[[16]byte]struct{}{}
 	w.reset()
 	root, _ := w.observe()
-	visited[c20Canon(root, vclock.Now(), retention)] = struct{}{}
-	frontier := []string{""}
-	var states, transitions int64 = 0, 0
-	if c.Shard == 0 {
-		states = 1
+	rootKey := c20Canon(root, vclock.Now(), retention)
+	visited[rootKey] = struct{}{}
+	if _, ok := tot.counted[rootKey]; !ok {
+		tot.counted[rootKey] = struct{}{}
+		if c.Shard == 0 {
+			tot.states++
+		}
 	}
-	crash := &c20CrashStats{Classes: map[string]string{}}
+	frontier := []string{""}
 	completed := 0
-	for depth := 0; depth < maxDepth; depth++ {
+	sample := map[string]string{}
+	for depth := 0; depth < p.Depth; depth++ {
 		// levels up to the split are explored identically by every shard and
 		// counted by shard 0 only
 		shared := depth < c20SplitDepth && c.NShards > 1
@@ -903,8 +931,9 @@ func c20Run(c *vfeng.Ctx) {
 			}
 			hist := []byte(hs)
 			if c.Expired() {
-				c.Inexhaustive(fmt.Sprintf("deadline reached at depth %d", depth))
-				goto done
+				c.Inexhaustive(fmt.Sprintf("pass %s: deadline reached at depth %d", p.Name, depth))
+				c.SetAdd("max_depth_completed", fmt.Sprintf("pass %s shard %02d: %d", p.Name, c.Shard, completed))
+				return
 			}
 			for oi, op := range ops {
 				w.reset()
@@ -913,27 +942,32 @@ func c20Run(c *vfeng.Ctx) {
 				}
 				out := c20Step(w, op, retention)
 				nh := append(append(make([]byte, 0, len(hist)+1), hist...), byte(oi))
-				if counting {
-					transitions++
-					c.Eval(1)
-					c.Class(out.Class, map[string]interface{}{"history": c20HistText(ops, nh)})
-					for _, f := range out.Findings {
-						c.Violate(f.Key, f.What+" -- history: "+c20HistText(ops, nh), c20Replay{Key: f.Key, Mode: "step", History: c20HistOps(ops, nh), Text: c20HistText(ops, nh)})
-					}
-				}
 				post, _ := w.observe()
 				key := c20Canon(post, vclock.Now(), retention)
-				if _, ok := visited[key]; !ok {
+				_, old := visited[key]
+				if !old {
 					visited[key] = struct{}{}
-					if counting {
-						states++
-					}
 					next = append(next, string(nh))
+				}
+				if !counting {
+					continue
+				}
+				if _, ok := tot.counted[key]; !ok {
+					tot.counted[key] = struct{}{}
+					tot.states++
+				}
+				tot.transitions++
+				if _, ok := sample[out.Class]; !ok {
+					sample[out.Class] = c20HistText(ops, nh)
+				}
+				c.Class(out.Class, sample[out.Class])
+				for _, f := range out.Findings {
+					c.Violate(f.Key, f.What+" -- history: "+c20HistText(ops, nh), c20Replay{Key: f.Key, Mode: "step", History: c20HistOps(ops, nh), Text: c20HistText(ops, nh)})
 				}
 			}
 			// crash points of a save taken in this state
-			if len(hist) <= crashDepth && counting {
-				for _, f := range c20Crash(w, ops, hist, crash) {
+			if len(hist) <= p.CrashDepth && counting {
+				for _, f := range c20Crash(w, ops, hist, tot.crash) {
 					c.Violate(f.Key, f.What, c20Replay{Key: f.Key, Mode: "crash", History: c20HistOps(ops, hist), Text: c20HistText(ops, hist)})
 				}
 				c.Count("save_crash_states", 1)
@@ -942,16 +976,27 @@ func c20Run(c *vfeng.Ctx) {
 		frontier = next
 		completed = depth + 1
 	}
-done:
-	c.Eval(crash.Evals)
-	c.Count("save_crash_points", crash.Evals)
-	for k, v := range crash.Classes {
+	c.SetAdd("max_depth_completed", fmt.Sprintf("pass %s shard %02d: %d", p.Name, c.Shard, completed))
+}
+
+func c20Run(c *vfeng.Ctx) {
+	retention := durationMonth
+	w := c20NewWorld(fmt.Sprintf("s%d", c.Shard))
+	defer w.Close()
+	tot := &c20Totals{counted: map[[16]byte]struct{}{}, crash: &c20CrashStats{Classes: map[string]string{}}}
+	for _, p := range c20Passes(c.Tier) {
+		before := tot.transitions
+		c20Search(c, w, p, tot, retention)
+		c.Count("transitions_pass_"+p.Name, tot.transitions-before)
+	}
+	c.Eval(tot.transitions + tot.crash.Evals)
+	c.Count("save_crash_points", tot.crash.Evals)
+	for k, v := range tot.crash.Classes {
 		c.Class(k, v)
 	}
-	c.Res.States = states
-	c.Res.Transitions = transitions
-	c.Res.Traces = transitions
-	c.SetAdd("max_depth_completed", fmt.Sprintf("shard %02d: %d", c.Shard, completed))
+	c.Res.States = tot.states
+	c.Res.Transitions = tot.transitions
+	c.Res.Traces = tot.transitions
 	if c.Shard == 0 {
 		c20Conformance(c, w, retention)
 	}
@@ -1158,7 +1203,7 @@ func init() {
 		Level:    "model_checking",
 		Rule: "breadth-first search over histories of record(auth|ssh|x509|webLogin|spLogin, u1|u2), tick(1h|16d|32d), expire, save+restart executed on the real eventrecorder functions " +
 			"(record*Event, expireOldEvents, getEventsList+saveEvents to a scratch file, loadEvents into a fresh recorder) under the virtual clock; a state is the per-user list of (event kind, age), ages beyond the retention merged; " +
-			"successors by re-running the shortest history on a fresh recorder; the list-per-user reference model is compared on every transition (same events, same order, minus entries older than the retention read from durationMonth); " +
+			"successors by re-running the shortest history on a fresh recorder; two passes: the full alphabet to the stated depth and a narrow one (one user, two event kinds, all ticks, expire, save+restart) two levels deeper; the list-per-user reference model is compared on every transition (same events, same order, minus entries older than the retention read from durationMonth); " +
 			"plus crash points of a save for every state up to the crash depth (every prefix length of the temp file, before/after rename, every truncation of the target); " +
 			"a class is a distinct (operation, outcome) pair",
 		Assumptions: []string{
@@ -1170,6 +1215,7 @@ func init() {
 		},
 		Bounds: func(tier string) map[string]interface{} {
 			return map[string]interface{}{"depth": c20Depth(tier), "alphabet": len(c20Alphabet()), "users": len(c20Users), "event_kinds": len(c20Kinds),
+				"narrow_pass_depth": c20Depth(tier) + 2, "narrow_pass_alphabet": len(c20NarrowAlphabet()),
 				"crash_depth": c20CrashDepth(tier), "retention_s": int64(durationMonth / time.Second),
 				"state_count_note": "with more than one shard, states are deduplicated per shard below the split depth " + strconv.Itoa(c20SplitDepth) + " (cross-shard duplicates are counted more than once)"}
 		},
@@ -1182,5 +1228,4 @@ func init() {
 		Run:    c20Run,
 		Replay: c20ReplayFn,
 	}
-	_ = reflect.DeepEqual
 }
